@@ -97,4 +97,15 @@ PROPS = {
         "trusted_base": ["fuel used by the driver (2*arena size+4) is checked by the correspondence, not proved sufficient"],
         "assumptions": ["sequence graph acyclic and every branch targets an enclosing sequence (otherwise the real emit panics / loops; outside the property)"],
     },
+    "C03": {
+        "claim": "Lean: the Emit visitor folded over the in-order traversal of a parsed body equals the structural flattening of its tree view (emitBody_eq_flatten, all trees, all depths); the parse-time control stack and the whole code round trip (type de-duplication and sorting, size-sorted function order, local compaction, nop/dead-code elision, if-without-else completion, label <-> sequence-id translation, memarg offset wrap) are an executable model that must predict walrus's emitted type section, function order, declared locals and every operator exactly, on every supported plain operator of wasmparser's for_each_operator! (enumerated completely, each with boundary immediates) and on generated modules. Oracle independent of the model: input vs output bodies decoded with wasmparser, compared after renaming, flat-stream elision and the if/else identification.",
+        "level_note": "Trusted: Lean kernel; hand model of append_instruction's control handling and of the Emit visitor (leaf operators are generic: name + immediates, so the two 900-line operator tables are tied by the exhaustive operator correspondence, not by a table theorem yet); wasmparser decoding, wasm-encoder reencode (to build the operator instances).",
+        "technique": "Lean 4 proof (emit side) + exact-prediction correspondence over the exhaustive operator set + independent elision oracle",
+        "lean_modules": ["Walrus.Props.C03"],
+        "suites": [{"name": "code"}],
+        "rule": "every plain operator of walrus's feature set (515 of wasmparser's for_each_operator!, found by proposal tag) x 3 boundary-immediate choices (9 in thorough), each typed by a validator-driven search and wrapped in a function of a fixed environment; plus generated modules (random feature mix, dead code, nops, if without else, multi-value blocks, duplicate types, all functions exported for tracking). Non-trivial: operator instances and bodies with structured control; distinct by request",
+        "strength": "emit side proved; parse side exact-prediction correspondence (theorem buildBody = elided annotated tree is the next deepening step); full property false today for memarg offsets >= 2^32 (open finding D5)",
+        "trusted_base": ["the classification of immediates by wasmparser field name (decode.rs)"],
+        "assumptions": ["C03_partial carries offset < 2^32 for memory64 accesses (D5)"],
+    },
 }
